@@ -233,6 +233,19 @@ func BuildAlphabet(t universe.Affine, level int) *Alphabet {
 		mkOp(geom.NewMultiLineString([]geom.LineString{t.Line(vee)}).AsGeometry(), "multi"),
 		mkOp(geom.NewMultiLineString([]geom.LineString{t.Line(cap), t.Line([]universe.LPt{{0, 0}, {0, 1}, {0, 1}})}).AsGeometry(), "multi"),
 		mkOp(geom.NewMultiPolygon([]geom.Polygon{t.Polygon(dart)}).AsGeometry(), "multi"))
+	// loops drawn by several open members (all end points cancel under the mod-2 rule: no boundary),
+	// and a loop with a tail (two boundary points)
+	for _, ms := range [][][]universe.LPt{
+		{{{0, 0}, {2, 0}}, {{2, 0}, {0, 2}}, {{0, 2}, {0, 0}}},
+		{{{0, 0}, {2, 0}, {2, 2}}, {{2, 2}, {0, 2}, {0, 0}}},
+		{{{0, 0}, {1, 0}}, {{1, 0}, {1, 1}}, {{1, 1}, {0, 0}}, {{1, 1}, {2, 2}}},
+	} {
+		var ls []geom.LineString
+		for _, m := range ms {
+			ls = append(ls, t.Line(m))
+		}
+		a.Multis = append(a.Multis, mkOp(geom.NewMultiLineString(ls).AsGeometry(), "multi"))
+	}
 	// empties of every type
 	for _, g := range []geom.Geometry{
 		{}, geom.Point{}.AsGeometry(), geom.LineString{}.AsGeometry(), geom.Polygon{}.AsGeometry(),
